@@ -46,11 +46,11 @@ vlib.known_findings = _known
 
 class P(vlib.Prop):
     pid = "C04"
-    coq_dirs = ["Common", "C04"]
+    coq_dirs = ["Common", "C04", "Generated"]
     coq_targets = ["C04/Properties.vo", "C04/Witness.vo", "C04/Harness.vo"]
     properties_module = "C04.Properties"
     properties_file = "C04/Properties.v"
-    instance_obligations = []
+    instance_obligations = ["obl_sov", "obl_bytes_delta", "obl_count_delta", "obl_count_weights", "obl_batch_config_validate"]
     harness_module = "C04.Harness"
     case_type = "ccase"
     shard = 40
@@ -82,6 +82,7 @@ class P(vlib.Prop):
             "several requests (batcher); distinct = distinct case terms.")
     trusted_base = [
         "Coq 8.16.1 kernel + vm_compute (coqc); no axioms (Print Assumptions: closed under the global context)",
+        "translator T1 (tools/go2coq): sov, protoDeltaSizer.DeltaSize, the count sizers' DeltaSize / item weights and BatchConfig.Validate are read from the current source (coq/Generated/C04Sizers.v) and proved equal to the model's definitions (coq/C04/Obligations.v)",
         "hand-written Gallina model coq/C04/Model.v of *_batch.go, sizer/*, default_batcher.go, tied by the correspondence run on every check",
         "sizes of leaves and context headers are measured from the real protobuf sizer and are inputs of the model",
         "Go harnesses harness/C04/*.go + go test -overlay; Go toolchain",
@@ -104,6 +105,8 @@ class P(vlib.Prop):
     def translate(self, ctx):
         for pkg in ("exporterhelper", "xexporterhelper"):
             _common(pkg)
+        # translator T1: sov / DeltaSize / count-sizer weights / BatchConfig.Validate read from the current source
+        vlib.go2coq(ctx, "exporter", os.path.join(vlib.VERIF, "props", "C04", "t1_spec.json"), "C04Sizers")
 
 
 # the harness table above names files that translate() writes; make sure they exist when the module is imported
